@@ -3,5 +3,5 @@
 cd /verif/harness || exit 2
 export CARGO_NET_OFFLINE=true
 cp /repo/Cargo.lock Cargo.lock && cp /repo/Cargo.lock .Cargo.lock.src
-mkdir -p /verif/work /verif/evidence /verif/replays
-cargo build --offline && /verif/target/debug/verif selftest /verif/work
+mkdir -p /verif/evidence /verif/replays
+cargo build --offline && /verif/target/debug/verif selftest
